@@ -220,6 +220,16 @@ def _unique_name(params: Any) -> str:
     # Boolean indication of whether *all* param-datatypes are from among these
     all_scalar = all([param.dtype in scalars for param in params.__params__.values()])
 
+    # The readable form must be unambiguous: a string value which contains one of its separators,
+    # or which reads like the absent value `None`, would give two different parameter-sets the same name.
+    # (E.g. `a="x b=y", b="z"` and `a="x", b="y b=z"` would both read `a=x b=y b=z`.)
+    # Parameter-sets holding such strings are serialized and hashed instead.
+    def _plain(val: Any) -> bool:
+        return not isinstance(val, str) or not (" " in val or "=" in val or val == "None")
+
+    if all_scalar:
+        all_scalar = all(_plain(getattr(params, k)) for k in params.__params__.keys())
+
     # If all params are scalars, create a readable string of their values
     if all_scalar:
         # Format: `pname1=pval1 pname2=pval2 pname3=pval3`
